@@ -188,6 +188,8 @@ static inline uint32_t hs_hash6432shift(uint64_t key, unsigned int order)
 				check_hop_info = check_hop_info & ~(mask);                                                                                                        \
 				check_hop_info = check_hop_info | (UINT32_C(1) << check_distance);                                                                                          \
 				table[check_position].hop_info = check_hop_info;                                                                                                  \
+				wmb();                                                                                                                                            \
+				table[hop_position].key = (type)HASHTABLE_INVALIDENTRY;                                                                                           \
 				return hop_position;                                                                                                                              \
 			}                                                                                                                                                         \
 			--check_distance;                                                                                                                                         \
